@@ -18,7 +18,7 @@ func R1Explicit(c *Ctx, scope []*ssa.Function, ruleSuffix string) {
 	c.R.Rule(rule, "no reachable explicit panic / log.Fatal / os.Exit, no integer division by a value that can be zero and no write to a map that may be nil in the scope (environment faults are listed with their reason in tables/bounds_reviewed.json)", 1)
 	reviewed := loadReviewed(c)
 	emit := func(fn *ssa.Function, in ssa.Instruction, construct, msg string) {
-		if w, ok := reviewed["|"+FuncShort(fn)+"|"+construct]; ok {
+		if w, ok := c.reviewedWhy(reviewed, fn, FuncShort(fn), construct); ok {
 			c.R.Ok(rule, FuncShort(fn), construct, c.pos(in.Pos()), "reviewed: "+w, true)
 			return
 		}
@@ -269,7 +269,7 @@ func R1Loops(c *Ctx, scope []*ssa.Function, ruleSuffix string) {
 				case countedLoop(pk, s):
 					c.R.Ok(rule, fname, construct, c.pos(s.Pos()), "counted loop: the induction variable moves monotonically towards its bound", true)
 				default:
-					if w, ok := reviewed["|"+fname+"|"+construct]; ok {
+					if w, ok := c.reviewedWhy(reviewed, root, fname, construct); ok {
 						c.R.Ok(rule, fname, construct, c.pos(s.Pos()), "reviewed: "+w, true)
 					} else {
 						c.R.Bad(rule, fname, construct, c.pos(s.Pos()), "loop with no recognised termination argument in code reachable from untrusted traffic")
